@@ -38,6 +38,12 @@ SEEDS = [
     "class A<int x>; multiclass M<int q> { def _m : A<x = q>; } defset list<A> s = { defm in_s : M<q = 1>; def plain : A<x = 2>; } defvar v = s;",
     "class A { int x = 0; int y = x; } class B : A { int x = 1; int z = x; } def d : B { int x = 2; int w = x; let y = x; }",
     "class A; def \"a\" \"b\" : A; def \"c\" : A; def \"\" : A; def \"a\" # \"b\" : A; def user { A r = c; }",
+    # one name token that several declarations could claim: a top-level `let` over defs that get the field from different declarations
+    # (different classes, a body `let` in between, the parents in either order), nested lets of one field, a `let` over an include
+    "class C { int X = 0; } class R { int X = 0; } let X = 1 in { def D1 : C; def D2 : R; } def use { int a = D1.X; int b = D2.X; }",
+    "class C { int X = 0; } class D : C { let X = 1; } let X = 2 in { def a : C; def b : D; } let X = 3 in let X = 4 in def c : D;",
+    "class C { int X = 0; } class R { int X = 0; } let X = 1 in { def a : C, R; def b : R, C; def c : C { let X = 5; } } let X = 7, X = 8 in def e : R;",
+    "class C { int X = 0; string N = \"\"; } multiclass M { def _a : C; } let X = 1, N = \"n\" in { defm m : M; foreach i = [1, 2] in def f#i : C { int Y = X; } }",
 ]
 
 
